@@ -1,32 +1,31 @@
 From Coq Require Import ZArith List Bool Arith Lia String.
 Import ListNotations.
-From TD Require Import Model.C11_Layout Model.C11_Tree Proofs.C11_LayoutP Proofs.C11_TreeP.
+From TD Require Import Model.C11_Layout Model.C11_Tree Proofs.C11_LayoutP Proofs.C11_TreeP Proofs.C11_AuxP Proofs.C11_PickleP.
 Open Scope nat_scope.
 Open Scope string_scope.
 
-(* ------------------------------------------------------------------ consolidate() keeps everything but the lock state *)
-Lemma unview_consolidated A np :
-  (forall t s, unview_t (outmeta_t false (fst (mark_t A np t s))) = setlock_t false (unview_t t)) /\
-  (forall f s, unview_f (outmeta_f false (fst (mark_f A np f s))) = setlock_f false (unview_f f)).
+(* ------------------------------------------------------------------ consolidate() keeps everything (fix: D110: the lock state too) *)
+Lemma unview_mark A np :
+  (forall t s, unview_t (fst (mark_t A np t s)) = unview_t t) /\
+  (forall f s, unview_f (fst (mark_f A np f s)) = unview_f f).
 Proof.
   apply tree_forest_ind; cbn [mark_t mark_f].
-  - intros m f IH s. specialize (IH s). destruct (mark_f A np f s) as [f' e]. cbn [fst outmeta_t unview_t setlock_t] in *.
-    now rewrite IH.
+  - intros m f IH s. specialize (IH s). destruct (mark_f A np f s) as [f' e]. cbn [fst unview_t] in *. now rewrite IH.
   - reflexivity.
   - intros k l v r IH s. specialize (IH (s + flat_size A np (spec_of l))).
-    destruct (mark_f A np r (s + flat_size A np (spec_of l))) as [r' e]. cbn [fst outmeta_f unview_f setlock_f] in *. now rewrite IH.
-  - intros k p bs r IH s. specialize (IH s). destruct (mark_f A np r s) as [r' e]. cbn [fst outmeta_f unview_f setlock_f] in *. now rewrite IH.
+    destruct (mark_f A np r (s + flat_size A np (spec_of l))) as [r' e]. cbn [fst unview_f] in *. now rewrite IH.
+  - intros k p bs r IH s. specialize (IH s). destruct (mark_f A np r s) as [r' e]. cbn [fst unview_f] in *. now rewrite IH.
   - intros k t IHt r IHr s. specialize (IHt s). destruct (mark_t A np t s) as [t' mid]. specialize (IHr mid).
-    destruct (mark_f A np r mid) as [r' e]. cbn [fst outmeta_f unview_f setlock_f] in *. now rewrite IHt, IHr.
+    destruct (mark_f A np r mid) as [r' e]. cbn [fst unview_f] in *. now rewrite IHt, IHr.
 Qed.
 
 (* the consolidated tensordict: same keys in the same order, same tensors (dtype, shape, bytes), same non-tensor data, same
-   batch sizes / names / device at every node -- and NOT locked, whatever the source was (D110) *)
+   batch sizes / names / device / lock state at every node *)
 Theorem consolidate_content A np t st : tree_side A np t -> consolidate_tree A np false t = Ok st ->
-  unview_t (cur st) = setlock_t false (unview_t t).
+  unview_t (cur st) = unview_t t.
 Proof.
   intros Hs Hc. rewrite (consolidate_ok _ _ _ _ Hs) in Hc. injection Hc as <-. cbn [cur].
-  apply (proj1 (unview_consolidated A np)).
+  rewrite (proj1 outmeta_id). apply (proj1 (unview_mark A np)).
 Qed.
 
 (* ------------------------------------------------------------------ histories that never consolidate: __getstate__ path *)
@@ -45,50 +44,6 @@ Proof.
   apply orb_false_iff in Hn as [H1 H2]. apply IH; [now apply step_no_cons|exact H2].
 Qed.
 
-(* a locked node's descendants are locked *)
-Fixpoint all_locked_t (t : tree) : bool := match t with Node m f => m_locked m && all_locked_f f end
-with all_locked_f (f : forest) : bool :=
-  match f with
-  | FNil => true
-  | FLeaf _ _ _ r | FNonT _ _ _ r => all_locked_f r
-  | FSub _ t r => all_locked_t t && all_locked_f r
-  end.
-Fixpoint lock_closed_t (t : tree) : bool :=
-  match t with Node m f => (if m_locked m then all_locked_f f else true) && lock_closed_f f end
-with lock_closed_f (f : forest) : bool :=
-  match f with
-  | FNil => true
-  | FLeaf _ _ _ r | FNonT _ _ _ r => lock_closed_f r
-  | FSub _ t r => lock_closed_t t && lock_closed_f r
-  end.
-
-Lemma set_locked_same m : set_locked m (m_locked m) = m.
-Proof. now destruct m. Qed.
-
-Lemma relock_all_locked :
-  (forall t, all_locked_t t = true -> relock_t true t = t) /\ (forall f, all_locked_f f = true -> relock_f true f = f).
-Proof.
-  apply tree_forest_ind; cbn [all_locked_t all_locked_f relock_t relock_f].
-  - intros m f IH H. apply andb_true_iff in H as [H1 H2]. rewrite H1. cbn [orb]. rewrite (IH H2).
-    rewrite <- H1 at 1. now rewrite set_locked_same.
-  - reflexivity.
-  - intros k l v r IH H. now rewrite (IH H).
-  - intros k p bs r IH H. now rewrite (IH H).
-  - intros k t IHt r IHr H. apply andb_true_iff in H as [H1 H2]. now rewrite (IHt H1), (IHr H2).
-Qed.
-
-Lemma relock_closed :
-  (forall t, lock_closed_t t = true -> relock_t false t = t) /\ (forall f, lock_closed_f f = true -> relock_f false f = f).
-Proof.
-  apply tree_forest_ind; cbn [lock_closed_t lock_closed_f relock_t relock_f].
-  - intros m f IH H. apply andb_true_iff in H as [H1 H2]. rewrite orb_false_r, set_locked_same.
-    destruct (m_locked m); [now rewrite (proj2 relock_all_locked f H1)|now rewrite (IH H2)].
-  - reflexivity.
-  - intros k l v r IH H. now rewrite (IH H).
-  - intros k p bs r IH H. now rewrite (IH H).
-  - intros k t IHt r IHr H. apply andb_true_iff in H as [H1 H2]. now rewrite (IHt H1), (IHr H2).
-Qed.
-
 (* every history without consolidate(), from a tensordict that was never consolidated: pickle / deepcopy go through
    __getstate__ / __setstate__ and give back the object as it is at the moment of the call *)
 Theorem pickle_unconsolidated t ops :
@@ -101,62 +56,46 @@ Proof.
   unfold pickle_roundtrip. rewrite Hs, (proj1 relock_closed _ Hl). destruct st as [c s]. cbn in *. now subst.
 Qed.
 
-(* ------------------------------------------------------------------ witnesses (the defects of the code as it is) *)
+(* ------------------------------------------------------------------ the former defect witnesses, now repaired *)
 Definition m0 : nmeta := {| m_bs := []; m_names := []; m_dev := None; m_locked := false |}.
 Definition m3 (lk : bool) : nmeta := {| m_bs := [3]; m_names := [None]; m_dev := None; m_locked := lk |}.
 Definition u8x8 : leaf := {| l_dt := 0; l_esz := 1; l_shape := [8]; l_bytes := [1; 2; 3; 4; 5; 6; 7; 8]%Z |}.
 Definition c128 : leaf := {| l_dt := 11; l_esz := 16; l_shape := [1]; l_bytes := repeat 0%Z 16 |}.
 Definition i32 (v : Z) : leaf := {| l_dt := 6; l_esz := 4; l_shape := [3]; l_bytes := [v; 0; 0; 0; v; 0; 0; 0; v; 0; 0; 0]%Z |}.
 
-(* D11 at tree level *)
+(* D11: uint8[8] then complex128 consolidates and comes back (padding unit 16) *)
 Definition t_d11 : tree := Node m0 (FLeaf "a" u8x8 None (FLeaf "b" c128 None FNil)).
-Theorem consolidate_16byte_refuted :
-  wf_t t_d11 = true /\ no_reserved_t t_d11 = true /\ sizes_ok 8 true (flat t_d11) = true /\
-  consolidate_tree 8 true false t_d11 = Raised EView.
-Proof. repeat split; reflexivity. Qed.
+Example d11_repaired : tree_side align_unit true t_d11 /\
+  exists st st', consolidate_tree align_unit true false t_d11 = Ok st /\ pickle_roundtrip st = Ok st' /\
+    leaf_at (cur st') [] "a" = Some u8x8 /\ leaf_at (cur st') [] "b" = Some c128.
+Proof. split; [repeat split; reflexivity|]. do 2 eexists. split; [vm_compute; reflexivity|]. split; [vm_compute; reflexivity|split; reflexivity]. Qed.
 
-(* D12 *)
+(* D12: an out-of-place write and a new key after consolidate() are in the copy *)
 Definition t_d12 : tree := Node (m3 false) (FLeaf "a" (i32 0) None FNil).
 Definition ops_d12 : list op := [OConsolidate false; OSet [] "a" (i32 1); OSet [] "c" (i32 1)].
-Theorem pickle_after_mutation_refuted :
-  exists t ops, tree_side 8 true t /\
-    let st := run {| cur := t; snap := None |} ops in
-    exists st', pickle_roundtrip st = Ok st' /\
-      leaf_at (cur st) [] "a" = Some (i32 1) /\ leaf_at (cur st') [] "a" = Some (i32 0) /\
-      leaf_at (cur st) [] "c" = Some (i32 1) /\ leaf_at (cur st') [] "c" = None.
-Proof.
-  exists t_d12, ops_d12. split; [repeat split; reflexivity|].
-  cbv zeta. eexists. split; [vm_compute; reflexivity|]. repeat split; reflexivity.
-Qed.
+Example d12_repaired :
+  let st := run {| cur := t_d12; snap := None |} ops_d12 in
+  exists st', pickle_roundtrip st = Ok st' /\ snap st' = None /\
+    leaf_at (cur st') [] "a" = Some (i32 1) /\ leaf_at (cur st') [] "c" = Some (i32 1).
+Proof. cbv zeta. eexists. split; [vm_compute; reflexivity|]. repeat split; reflexivity. Qed.
 
-(* D110: a locked source; the consolidated tensordict is not locked; its pickled copy is locked again *)
+(* D110: the consolidated copy of a locked tensordict is locked, and so is its pickled copy *)
 Definition t_d110 : tree := Node (m3 true) (FLeaf "a" (i32 5) None FNil).
-Theorem consolidate_lock_refuted :
-  exists t, tree_side 8 true t /\ m_locked (meta t) = true /\
-    exists st st', consolidate_tree 8 true false t = Ok st /\ m_locked (meta (cur st)) = false /\
-                   pickle_roundtrip st = Ok st' /\ m_locked (meta (cur st')) = true.
-Proof.
-  exists t_d110. split; [repeat split; reflexivity|]. split; [reflexivity|].
-  do 2 eexists. split; [vm_compute; reflexivity|]. split; [reflexivity|]. split; [vm_compute; reflexivity|reflexivity].
-Qed.
+Example d110_repaired :
+  exists st st', consolidate_tree align_unit true false t_d110 = Ok st /\ m_locked (meta (cur st)) = true /\
+                 pickle_roundtrip st = Ok st' /\ m_locked (meta (cur st')) = true.
+Proof. do 2 eexists. split; [vm_compute; reflexivity|]. split; [reflexivity|]. split; [vm_compute; reflexivity|reflexivity]. Qed.
 
-(* D114: consolidate(filename): device cpu on the result, None in the snapshot *)
-Theorem file_device_refuted :
-  exists t, tree_side 8 true t /\ m_dev (meta t) = None /\
-    exists st st', consolidate_tree 8 true true t = Ok st /\ m_dev (meta (cur st)) = Some 0 /\
-                   pickle_roundtrip st = Ok st' /\ m_dev (meta (cur st')) = None.
-Proof.
-  exists t_d12. split; [repeat split; reflexivity|]. split; [reflexivity|].
-  do 2 eexists. split; [vm_compute; reflexivity|]. split; [reflexivity|]. split; [vm_compute; reflexivity|reflexivity].
-Qed.
+(* D114 (pickle side): after consolidate(filename) the result has device cpu; the snapshot (device None) is not current,
+   so the copy is made from the object and has device cpu too *)
+Example d114_pickle_repaired :
+  exists st st', consolidate_tree align_unit true true t_d12 = Ok st /\ m_dev (meta (cur st)) = Some 0 /\
+                 pickle_roundtrip st = Ok st' /\ m_dev (meta (cur st')) = Some 0 /\ leaf_at (cur st') [] "a" = Some (i32 0).
+Proof. do 2 eexists. split; [vm_compute; reflexivity|]. split; [reflexivity|]. split; [vm_compute; reflexivity|split; reflexivity]. Qed.
 
-(* D115: a nested tensordict called "size" disappears *)
+(* D115: a nested tensordict called "size" survives *)
 Definition t_d115 : tree := Node (m3 false) (FSub "size" (Node (m3 false) (FLeaf "a" (i32 2) None FNil)) (FLeaf "b" (i32 1) None FNil)).
-Theorem reserved_key_refuted :
-  wf_t t_d115 = true /\ sizes_ok 8 true (flat t_d115) = true /\ aligned_at 8 true 0 (lspecs (flat t_d115)) = true /\
-  exists st st', consolidate_tree 8 true false t_d115 = Ok st /\ pickle_roundtrip st = Ok st' /\
-    leaf_at (cur st) ["size"] "a" = Some (i32 2) /\ sub_at (cur st') ["size"] = None.
-Proof.
-  repeat split; try reflexivity.
-  do 2 eexists. split; [vm_compute; reflexivity|]. split; [vm_compute; reflexivity|]. split; reflexivity.
-Qed.
+Example d115_repaired :
+  exists st st', consolidate_tree align_unit true false t_d115 = Ok st /\ pickle_roundtrip st = Ok st' /\
+    leaf_at (cur st') ["size"] "a" = Some (i32 2).
+Proof. do 2 eexists. split; [vm_compute; reflexivity|]. split; [vm_compute; reflexivity|reflexivity]. Qed.
